@@ -137,8 +137,22 @@ C12_Checks(r) ==
      {<<"C12.without_query_params", TRUE, C12_Without(r.args.keys, r.self, r.out)>>}
   ELSE {}
 
+\* ---------------------------------------------------------------- C13
+C13_ObsChecks(tag, o) ==
+  {<<"C13.parts_recompose" \o tag, TRUE, C13_PartsRecompose(o)>>, <<"C13.name_is_last" \o tag, TRUE, C13_NameIsLast(o)>>,
+   <<"C13.suffix_is_tail" \o tag, TRUE, C13_SuffixIsTail(o)>>}
+C13_Checks(r) ==
+  IF r.act # "alt" THEN {}
+  ELSE C13_ObsChecks("", r.self)
+       \cup UNION {IF Ok(r.outs[i]) THEN C13_ObsChecks("/out", r.outs[i].ok) ELSE {} : i \in 1..Len(r.outs)}
+       \cup (CASE r.family = "div" -> {<<"C13.div", TRUE, C13_Div(r.args, r.self, r.outs)>>}
+               [] r.family = "join2" -> {<<"C13.join2", TRUE, C13_Join2(r.args, r.self, r.outs)>>}
+               [] r.family = "with_name" -> {<<"C13.with_name", TRUE, C13_WithName(r.args, r.self, r.outs)>>}
+               [] r.family = "with_suffix" -> {<<"C13.with_suffix", Ok(r.outs[1]), C13_WithSuffix(r.args, r.self, r.outs)>>})
+
 Checks(r) ==
   CASE Prop = "C07" -> C07_Checks(r)
+    [] Prop = "C13" -> C13_Checks(r)
     [] Prop = "C12" -> C12_Checks(r)
     [] Prop = "C10" -> C10_Checks(r)
     [] Prop = "C04" -> C04_Checks(r)
@@ -198,7 +212,14 @@ Trig_OrderingOnRawTuple(r) ==
   /\ r.act = "cmp" /\ NormKey5(r.a) = NormKey5(r.b) /\ V(r.a.val) # V(r.b.val)
   /\ r.lt = Lt(ModelOf(r.a), ModelOf(r.b)) /\ r.gt = Gt(ModelOf(r.a), ModelOf(r.b))
   /\ r.le = Le(ModelOf(r.a), ModelOf(r.b)) /\ r.ge = Ge(ModelOf(r.a), ModelOf(r.b))
+\* Dev_WithSuffixRequotesRawName: observed raw name = PATH_QUOTER applied to the RAW stem + suffix (Level I)
+Trig_WithSuffixRequotes(r) ==
+  /\ r.act = "alt" /\ r.family = "with_suffix" /\ Ok(r.outs[1]) /\ Ok(r.self.raw_name) /\ Ok(r.self.raw_suffix)
+  /\ LET stem == Stem(V(r.self.raw_name), V(r.self.raw_suffix)) IN
+       /\ QuoteC(PATH_QUOTER, stem) # stem                                         \* trigger: the raw stem is not quoting-stable
+       /\ V(r.outs[1].ok.raw_name) = QuoteC(PATH_QUOTER, stem \o r.args.x)          \* observed = deviant prediction
 Attribution(r) ==
+  IF r.act = "alt" THEN (IF Trig_WithSuffixRequotes(r) THEN {"Dev_WithSuffixRequotesRawName"} ELSE {}) ELSE
   IF r.act \in {"cmp", "cmp3"} THEN (IF r.act = "cmp" /\ Trig_OrderingOnRawTuple(r) THEN {"Dev_OrderingOnRawTuple"} ELSE {}) ELSE
   (IF OutOk(r) THEN ObsAttribution(r.out.ok) ELSE {})
   \cup (IF Trig_JoinRootlessBase(r) THEN {"Dev_JoinRootlessBase"} ELSE {})
